@@ -21,7 +21,8 @@ EXPLANATION = (
     "of register_nglob as a truth table over FileState; duplicate-step check before create; out/vol overlap in both "
     "define and amend; forbidden targets at all three sites. Every _declare_file call is dominated by "
     "_check_declaration for the same path; the no-op redeclaration requires equal role and equal creator "
-    "(finite-domain table). Does not decide all path spellings: the director trusts the client to normalise (C20)."
+    "(finite-domain table). Does not decide all path spellings: the director trusts the client to normalise (C20). "
+    "Also: R-C08-5 a claim taken from a detached owner invalidates the owner's whole detached creator chain; R-C08-6 a declaration that lands under a detached static tree, or is matched by a detached step's pattern, invalidates that owner (otherwise the tree/pattern is revived unchecked by a full recycle)."
 )
 ASSUMPTIONS = ["labels arrive normalised from the client (C20)", "prefix selections are exact (C18)"]
 
